@@ -53,7 +53,14 @@ pub struct Case {
     /// one more file with two commands whose camelCase names coincide
     #[serde(default)]
     pub same_camel: bool,
+    /// two more files (in different directories) that each hold a command function of the same Rust
+    /// name with a different signature: two annotated functions, two wrappers (whether the module
+    /// then compiles is C02's business)
+    #[serde(default)]
+    pub same_name: bool,
 }
+
+pub const SAME_NAME: &str = "get_status";
 
 impl Case {
     pub fn build(&self) -> (Project, BTreeSet<String>) {
@@ -82,6 +89,13 @@ impl Case {
             files.push(("src/twins.rs".into(), SAME_CAMEL.replace("NAME", "twin")));
             expected.insert("twin_x_y".to_string());
             expected.insert("twin_x__y".to_string());
+        }
+        if self.same_name {
+            files.push(("src/admin/mod.rs".into(), format!("#[tauri::command]\npub fn {}() -> Result<u32, String> {{ Ok(1) }}\n#[tauri::command]\npub fn admin_only() -> i32 {{ 1 }}\n", SAME_NAME)));
+            files.push(("src/user/mod.rs".into(), format!("#[tauri::command]\npub async fn {}(verbose: bool) -> Vec<String> {{ let _ = verbose; vec![] }}\n#[tauri::command]\npub fn user_only() -> i32 {{ 1 }}\n", SAME_NAME)));
+            expected.insert(SAME_NAME.to_string());
+            expected.insert("admin_only".to_string());
+            expected.insert("user_only".to_string());
         }
         let mut links = vec![];
         if let Some(k) = self.symlinked {
@@ -198,8 +212,9 @@ pub fn eval(case: &Case) -> (Vec<Violation>, bool, Option<String>) {
         vs.push(mk(case, "extra-wrapper", format!("wrapper(s) for non-commands {:?}", extra)));
     }
     for (cmd, ws) in &obs.by_command {
-        if ws.len() != 1 {
-            vs.push(mk(case, "duplicate-wrapper", format!("command {} has wrappers {:?}", cmd, ws)));
+        let want = if case.same_name && cmd == SAME_NAME { 2 } else { 1 };
+        if ws.len() != want {
+            vs.push(mk(case, if ws.len() > want { "duplicate-wrapper" } else { "missing-wrapper" }, format!("{} function(s) annotated as command are called {}, wrappers invoking that name: {:?}", want, cmd, ws)));
         }
     }
     if obs.exported_functions.len() != obs.by_command.values().map(|v| v.len()).sum::<usize>() {
@@ -327,26 +342,29 @@ pub fn run(tier: Tier) -> CheckResult {
                 zod: i % 2 == 1,
                 many: 0,
                 same_camel: false,
+                same_name: false,
             });
         }
     }
     // two commands whose TypeScript names coincide: both keep their wrapper (that the two wrappers
     // then share a name is C02's recorded finding)
     for zod in [false, true] {
-        cases.push(Case { files: vec![], decoy_target: false, decoy_git: false, decoy_txt: false, unparsable: false, under_target_dir: false, symlinked: None, zod, many: 0, same_camel: true });
-        cases.push(Case { files: vec![(0, vec![0, 2]), (1, vec![1])], decoy_target: true, decoy_git: false, decoy_txt: false, unparsable: false, under_target_dir: false, symlinked: None, zod, many: 3, same_camel: true });
+        cases.push(Case { files: vec![], decoy_target: false, decoy_git: false, decoy_txt: false, unparsable: false, under_target_dir: false, symlinked: None, zod, many: 0, same_camel: true, same_name: false });
+        cases.push(Case { files: vec![], decoy_target: false, decoy_git: false, decoy_txt: false, unparsable: false, under_target_dir: false, symlinked: None, zod, many: 0, same_camel: false, same_name: true });
+        cases.push(Case { files: vec![(0, vec![0, 2]), (3, vec![1])], decoy_target: false, decoy_git: true, decoy_txt: false, unparsable: true, under_target_dir: false, symlinked: None, zod, many: 2, same_camel: true, same_name: true });
+        cases.push(Case { files: vec![(0, vec![0, 2]), (1, vec![1])], decoy_target: true, decoy_git: false, decoy_txt: false, unparsable: false, under_target_dir: false, symlinked: None, zod, many: 3, same_camel: true, same_name: false });
     }
     // many source files: every count from 5 to 40 (quick) / 96 (thorough), one command per file, alone
     // and next to a two-file layout with decoys
     for many in 5..=(if tier == Tier::Quick { 40 } else { 96 }) {
         for zod in [false, true] {
-            cases.push(Case { files: vec![], decoy_target: false, decoy_git: false, decoy_txt: false, unparsable: false, under_target_dir: false, symlinked: None, zod, many, same_camel: false });
+            cases.push(Case { files: vec![], decoy_target: false, decoy_git: false, decoy_txt: false, unparsable: false, under_target_dir: false, symlinked: None, zod, many, same_camel: false, same_name: false });
         }
-        cases.push(Case { files: vec![(0, vec![0, 7]), (2, vec![1])], decoy_target: true, decoy_git: true, decoy_txt: true, unparsable: many % 2 == 0, under_target_dir: false, symlinked: None, zod: many % 2 == 1, many, same_camel: many % 5 == 0 });
+        cases.push(Case { files: vec![(0, vec![0, 7]), (2, vec![1])], decoy_target: true, decoy_git: true, decoy_txt: true, unparsable: many % 2 == 0, under_target_dir: false, symlinked: None, zod: many % 2 == 1, many, same_camel: many % 5 == 0, same_name: many % 3 == 0 });
     }
     // the project itself below a directory named target
     for l in layouts.iter().filter(|l| l.len() == 1 && l[0].1.len() == 1).take(8) {
-        cases.push(Case { files: l.clone(), decoy_target: false, decoy_git: false, decoy_txt: false, unparsable: false, under_target_dir: true, symlinked: None, zod: false, many: 0, same_camel: false });
+        cases.push(Case { files: l.clone(), decoy_target: false, decoy_git: false, decoy_txt: false, unparsable: false, under_target_dir: true, symlinked: None, zod: false, many: 0, same_camel: false, same_name: false });
     }
     let results: Vec<Option<(Vec<Violation>, bool, Option<String>)>> = cases.par_iter().map(|c| if deadline.passed() { None } else { Some(eval(c)) }).collect();
     let mut evaluations = 0u64;
@@ -390,7 +408,7 @@ pub fn run(tier: Tier) -> CheckResult {
     res.coverage.set("outputs_not_parsable_here", unparsable_out);
     res.coverage.set("exhaustive", exhaustive);
     res.coverage.set("samples", json!(cases.iter().step_by((cases.len() / 5).max(1)).take(5).collect::<Vec<_>>()));
-    res.coverage.set("rule", "projects: 1..4 source files at directory depths 0..3 (plus every file count from 5 to 40 / 96 with one command per file), each holding a subset of the 14-item menu - one file: every subset of up to 4 (thorough: 5) items at every directory position; two files: every pair of subsets of up to 2 items; three files: every triple of single items; four files (thorough): every quadruple over a 6-item menu - (7 command spellings: tauri::command / command / with arguments, visibility, async, attribute order, doc comments, generics; 7 decoys: other::command, impl method, nested mod, helper fn, cfg_attr, const+macro text, look-alike paths), crossed with decoy trees (target/, .git/, non-.rs files, an unparsable .rs: three of the 16 combinations per layout in quick, all 16 in thorough); ground truth = the generator's own list of annotated top-level fns; oracle: the set of invoke() literals in the parsed commands.ts equals it, one exported function per command, each returning a Promise; adding the unparsable file changes nothing else (differential run). Non-trivial = at least one item present and the project accepted.");
+    res.coverage.set("rule", "same-named command functions in two files of different directories (two annotated functions: two wrappers invoking that name) alone and beside everything else; projects: 1..4 source files at directory depths 0..3 (plus every file count from 5 to 40 / 96 with one command per file), each holding a subset of the 14-item menu - one file: every subset of up to 4 (thorough: 5) items at every directory position; two files: every pair of subsets of up to 2 items; three files: every triple of single items; four files (thorough): every quadruple over a 6-item menu - (7 command spellings: tauri::command / command / with arguments, visibility, async, attribute order, doc comments, generics; 7 decoys: other::command, impl method, nested mod, helper fn, cfg_attr, const+macro text, look-alike paths), crossed with decoy trees (target/, .git/, non-.rs files, an unparsable .rs: three of the 16 combinations per layout in quick, all 16 in thorough); ground truth = the generator's own list of annotated top-level fns; oracle: the set of invoke() literals in the parsed commands.ts equals it, one exported function per command, each returning a Promise; adding the unparsable file changes nothing else (differential run). Non-trivial = at least one item present and the project accepted.");
     res.assumptions = vec!["return and parameter types are restricted to atoms that pass C05".into()];
     res
 }
